@@ -22,7 +22,8 @@ RULE = ('case i draws a batch of 6 seeded programs from the union of all generat
         'twice in-process; all assembly byte streams must be identical. (b) stack: for the first program the '
         'minimal completing stack N is measured and the histories at N, N+1, N+2, N+9, 4000 and 100000 words '
         'must be identical (time-travel programs included). (c) word size: the program (generated so that all '
-        'its constants fit 16 bits) is run at every word '
+        'its constants fit 16 bits; every third case a storage-layout program: dynamic arrays of all element types with '
+        'run-time lengths back to back, in a callee and in a loop, filled and only then read back) is run at every word '
         'size in {2,3,4,5,6,7,8}; whenever the reference histories at w < w\' agree the SVM histories must agree. '
         '(d) lint: --lint either raises a compiler diagnostic or yields byte-identical assembly. '
         'distinct = hash(batch sources); non-trivial = all four sub-checks executed for the batch.')
@@ -109,6 +110,45 @@ def check_words(p, argv, src):
     return out, runs, len(seen)
 
 
+def layout_prog(rnd):
+    """Storage layout under every word size: several dynamic arrays of all element types with run-time
+    lengths allocated back to back (also inside a callee and a loop), filled with distinct values and
+    only then read back - any size/offset computed for one particular word size makes neighbours overlap."""
+    from ..build import (I, C, S, V, call, ex, write, dyn, setv, aug, block, if_, for_up, bin_, idx, ln, is_, func, prog,
+                         dump_func, decl)
+    els = []
+    body, dumps = [], []
+
+    def alloc(k, lenexpr, prefix):
+        el = rnd.choice(('int', 'int', 'byte', 'bool', 'string'))
+        name = f'{prefix}{k}'
+        if el not in els:
+            els.append(el)
+        val = {'int': bin_('+', bin_('*', V('i'), I(k + 2)), I(100 * k + 7)),
+               'byte': is_(bin_('+', V('i'), I(65 + k)), 'byte'),
+               'bool': bin_('==', bin_('%', V('i'), I(2)), I(k % 2)),
+               'string': S(f's{k}')}[el]
+        return [dyn(el, name, lenexpr), for_up('i', I(0), ln(name), setv(idx(name, V('i')), val))], ex(call('dump', V(name)))
+    for k in range(rnd.randrange(2, 5)):
+        le = bin_('+', V('q'), I(rnd.randrange(0, 3))) if rnd.random() < 0.75 else I(rnd.randrange(1, 5))
+        a, d = alloc(k, le, 'a')
+        body += a
+        dumps.append(d)
+    inner_a, inner_d = [], []
+    for k in range(rnd.randrange(1, 3)):
+        a, d = alloc(k + 5, bin_('+', V('n'), I(k)), 'b')
+        inner_a += a
+        inner_d.append(d)
+    callee = func('int', 'deep', [('int', 'n')], *inner_a, *inner_d, ('ret', bin_('+', V('n'), I(1))))
+    body += [write(call('deep', V('q'))), write(C('|'))]
+    if rnd.random() < 0.5:
+        a, d = alloc(9, V('j'), 'c')
+        body.append(for_up('j', I(1), I(3), *a, d))
+    body += dumps
+    fs = [('func', 'empty', 'dump', ((('arrt', el, True), 'a'),), dump_func(el)[4]) for el in els]
+    return prog([], fs + [callee, func('empty', '@is_you', [('int', 'q')], *body)]), [str(rnd.randrange(1, 5))]
+
+
 def judge_batch(batch, hashseeds):
     """batch: list of (prog, argv, W, kind, src).  -> violations, stats"""
     viol = []
@@ -161,7 +201,11 @@ def case(seed, idx, tier):
         # the first program is generated for the narrowest word: all its literals and
         # constant sub-expressions fit 16 bits, so "values fit the narrower word" is
         # decided by the run alone (reference histories equal)
-        p, argv, W, kind = progs.draw(rnd, W=2 if k == 0 else None)
+        if k == 0 and idx % 3 == 1:
+            p, argv = layout_prog(rnd)
+            W, kind = 2, 'layout'
+        else:
+            p, argv, W, kind = progs.draw(rnd, W=2 if k == 0 else None)
         src = render.program(p, render.Style(rnd.randrange(1 << 30)))
         batch.append((p, argv, W, kind, src))
     hashseeds = [0, rnd.randrange(1, 1 << 31), rnd.randrange(1, 1 << 31), rnd.randrange(1, 1 << 31)]
